@@ -199,8 +199,7 @@ func (Serializer) Unmarshal(buf []byte, m pilosa.Message) error {
 		if err != nil {
 			return errors.Wrap(err, "unmarshaling QueryResponse")
 		}
-		decodeQueryResponse(msg, mt)
-		return nil
+		return decodeQueryResponse(msg, mt)
 	case *pilosa.ImportRequest:
 		msg := &internal.ImportRequest{}
 		err := proto.Unmarshal(buf, msg)
@@ -486,6 +485,9 @@ func encodeResizeSource(m *pilosa.ResizeSource) *internal.ResizeSource {
 }
 
 func encodeSchema(m *pilosa.Schema) *internal.Schema {
+	if m == nil {
+		return nil
+	}
 	return &internal.Schema{
 		Indexes: encodeIndexInfos(m.Indexes),
 	}
@@ -541,6 +543,8 @@ func encodeFieldOptions(o *pilosa.FieldOptions) *internal.FieldOptions {
 		BitDepth:    uint64(o.BitDepth),
 		TimeQuantum: string(o.TimeQuantum),
 		Keys:        o.Keys,
+
+		NoStandardView: o.NoStandardView,
 	}
 }
 
@@ -555,6 +559,9 @@ func encodeNodes(a []*pilosa.Node) []*internal.Node {
 
 // encodeNode converts a Node into its internal representation.
 func encodeNode(n *pilosa.Node) *internal.Node {
+	if n == nil {
+		return nil
+	}
 	return &internal.Node{
 		ID:            n.ID,
 		URI:           encodeURI(n.URI),
@@ -572,6 +579,9 @@ func encodeURI(u pilosa.URI) *internal.URI {
 }
 
 func encodeClusterStatus(m *pilosa.ClusterStatus) *internal.ClusterStatus {
+	if m == nil {
+		return nil
+	}
 	return &internal.ClusterStatus{
 		State:     m.State,
 		ClusterID: m.ClusterID,
@@ -595,6 +605,9 @@ func encodeCreateIndexMessage(m *pilosa.CreateIndexMessage) *internal.CreateInde
 }
 
 func encodeIndexMeta(m *pilosa.IndexOptions) *internal.IndexMeta {
+	if m == nil {
+		return nil
+	}
 	return &internal.IndexMeta{
 		Keys:           m.Keys,
 		TrackExistence: m.TrackExistence,
@@ -681,6 +694,9 @@ func encodeNodeEventMessage(m *pilosa.NodeEvent) *internal.NodeEventMessage {
 }
 
 func encodeNodeStatus(m *pilosa.NodeStatus) *internal.NodeStatus {
+	if m == nil {
+		return nil
+	}
 	return &internal.NodeStatus{
 		Node:    encodeNode(m.Node),
 		Indexes: encodeIndexStatuses(m.Indexes),
@@ -704,10 +720,11 @@ func encodeIndexStatuses(a []*pilosa.IndexStatus) []*internal.IndexStatus {
 }
 
 func encodeFieldStatus(m *pilosa.FieldStatus) *internal.FieldStatus {
-	return &internal.FieldStatus{
-		Name:            m.Name,
-		AvailableShards: m.AvailableShards.Slice(),
+	pb := &internal.FieldStatus{Name: m.Name}
+	if m.AvailableShards != nil {
+		pb.AvailableShards = m.AvailableShards.Slice()
 	}
+	return pb
 }
 
 func encodeFieldStatuses(a []*pilosa.FieldStatus) []*internal.FieldStatus {
@@ -767,6 +784,9 @@ func decodeResizeSource(rs *internal.ResizeSource, m *pilosa.ResizeSource) {
 }
 
 func decodeSchema(s *internal.Schema, m *pilosa.Schema) {
+	if s == nil {
+		return
+	}
 	m.Indexes = make([]*pilosa.IndexInfo, len(s.Indexes))
 	decodeIndexes(s.Indexes, m.Indexes)
 }
@@ -802,6 +822,10 @@ func decodeField(f *internal.Field, m *pilosa.FieldInfo) {
 }
 
 func decodeFieldOptions(options *internal.FieldOptions, m *pilosa.FieldOptions) {
+	if options == nil {
+		return
+	}
+	m.NoStandardView = options.NoStandardView
 	m.Type = options.Type
 	m.CacheType = options.CacheType
 	m.CacheSize = options.CacheSize
@@ -821,6 +845,9 @@ func decodeNodes(a []*internal.Node, m []*pilosa.Node) {
 }
 
 func decodeClusterStatus(cs *internal.ClusterStatus, m *pilosa.ClusterStatus) {
+	if cs == nil {
+		return
+	}
 	m.State = cs.State
 	m.ClusterID = cs.ClusterID
 	m.Nodes = make([]*pilosa.Node, len(cs.Nodes))
@@ -828,6 +855,9 @@ func decodeClusterStatus(cs *internal.ClusterStatus, m *pilosa.ClusterStatus) {
 }
 
 func decodeNode(node *internal.Node, m *pilosa.Node) {
+	if node == nil {
+		return
+	}
 	m.ID = node.ID
 	decodeURI(node.URI, &m.URI)
 	m.IsCoordinator = node.IsCoordinator
@@ -835,6 +865,9 @@ func decodeNode(node *internal.Node, m *pilosa.Node) {
 }
 
 func decodeURI(i *internal.URI, m *pilosa.URI) {
+	if i == nil {
+		return
+	}
 	m.Scheme = i.Scheme
 	m.Host = i.Host
 	m.Port = uint16(i.Port)
@@ -853,6 +886,9 @@ func decodeCreateIndexMessage(pb *internal.CreateIndexMessage, m *pilosa.CreateI
 }
 
 func decodeIndexMeta(pb *internal.IndexMeta, m *pilosa.IndexOptions) {
+	if pb == nil {
+		return
+	}
 	m.Keys = pb.Keys
 	m.TrackExistence = pb.TrackExistence
 }
@@ -921,6 +957,11 @@ func decodeNodeEventMessage(pb *internal.NodeEventMessage, m *pilosa.NodeEvent) 
 
 func decodeNodeStatus(pb *internal.NodeStatus, m *pilosa.NodeStatus) {
 	m.Node = &pilosa.Node{}
+	m.Schema = &pilosa.Schema{}
+	if pb == nil {
+		return
+	}
+	decodeNode(pb.Node, m.Node)
 	m.Indexes = decodeIndexStatuses(pb.Indexes)
 	m.Schema = &pilosa.Schema{}
 	decodeSchema(pb.Schema, m.Schema)
@@ -1011,7 +1052,7 @@ func decodeBlockDataResponse(pb *internal.BlockDataResponse, m *pilosa.BlockData
 	m.ColumnIDs = pb.ColumnIDs
 }
 
-func decodeQueryResponse(pb *internal.QueryResponse, m *pilosa.QueryResponse) {
+func decodeQueryResponse(pb *internal.QueryResponse, m *pilosa.QueryResponse) error {
 	m.ColumnAttrSets = make([]*pilosa.ColumnAttrSet, len(pb.ColumnAttrSets))
 	decodeColumnAttrSets(pb.ColumnAttrSets, m.ColumnAttrSets)
 	if pb.Err == "" {
@@ -1020,7 +1061,7 @@ func decodeQueryResponse(pb *internal.QueryResponse, m *pilosa.QueryResponse) {
 		m.Err = errors.New(pb.Err)
 	}
 	m.Results = make([]interface{}, len(pb.Results))
-	decodeQueryResults(pb.Results, m.Results)
+	return decodeQueryResults(pb.Results, m.Results)
 }
 
 func decodeColumnAttrSets(pb []*internal.ColumnAttrSet, m []*pilosa.ColumnAttrSet) {
@@ -1036,10 +1077,15 @@ func decodeColumnAttrSet(pb *internal.ColumnAttrSet, m *pilosa.ColumnAttrSet) {
 	m.Attrs = decodeAttrs(pb.Attrs)
 }
 
-func decodeQueryResults(pb []*internal.QueryResult, m []interface{}) {
+func decodeQueryResults(pb []*internal.QueryResult, m []interface{}) error {
 	for i := range pb {
-		m[i] = decodeQueryResult(pb[i])
+		v, err := decodeQueryResult(pb[i])
+		if err != nil {
+			return errors.Wrapf(err, "decoding result %d", i)
+		}
+		m[i] = v
 	}
+	return nil
 }
 
 func decodeTranslateKeysRequest(pb *internal.TranslateKeysRequest, m *pilosa.TranslateKeysRequest) {
@@ -1066,30 +1112,33 @@ const (
 	queryResultTypePair
 )
 
-func decodeQueryResult(pb *internal.QueryResult) interface{} {
+func decodeQueryResult(pb *internal.QueryResult) (interface{}, error) {
 	switch pb.Type {
 	case queryResultTypeRow:
-		return decodeRow(pb.Row)
+		return decodeRow(pb.Row), nil
 	case queryResultTypePairs:
-		return decodePairs(pb.Pairs)
+		return decodePairs(pb.Pairs), nil
 	case queryResultTypeValCount:
-		return decodeValCount(pb.ValCount)
+		return decodeValCount(pb.ValCount), nil
 	case queryResultTypeUint64:
-		return pb.N
+		return pb.N, nil
 	case queryResultTypeBool:
-		return pb.Changed
+		return pb.Changed, nil
 	case queryResultTypeNil:
-		return nil
+		return nil, nil
 	case queryResultTypeRowIDs:
-		return pilosa.RowIDs(pb.RowIDs)
+		return pilosa.RowIDs(pb.RowIDs), nil
 	case queryResultTypeRowIdentifiers:
-		return decodeRowIdentifiers(pb.RowIdentifiers)
+		return decodeRowIdentifiers(pb.RowIdentifiers), nil
 	case queryResultTypeGroupCounts:
-		return decodeGroupCounts(pb.GroupCounts)
+		return decodeGroupCounts(pb.GroupCounts), nil
 	case queryResultTypePair:
-		return decodePair(pb.Pairs[0])
+		if len(pb.Pairs) == 0 {
+			return nil, errors.New("pair result without a pair")
+		}
+		return decodePair(pb.Pairs[0]), nil
 	}
-	panic(fmt.Sprintf("unknown type: %d", pb.Type))
+	return nil, fmt.Errorf("unknown query result type: %d", pb.Type)
 }
 
 // DecodeRow converts r from its internal representation.
@@ -1139,6 +1188,9 @@ func decodeAttr(attr *internal.Attr) (key string, value interface{}) {
 }
 
 func decodeRowIdentifiers(a *internal.RowIdentifiers) *pilosa.RowIdentifiers {
+	if a == nil {
+		return &pilosa.RowIdentifiers{}
+	}
 	return &pilosa.RowIdentifiers{
 		Rows: a.Rows,
 		Keys: a.Keys,
@@ -1187,6 +1239,9 @@ func decodePair(pb *internal.Pair) pilosa.Pair {
 }
 
 func decodeValCount(pb *internal.ValCount) pilosa.ValCount {
+	if pb == nil {
+		return pilosa.ValCount{}
+	}
 	return pilosa.ValCount{
 		Val:   pb.Val,
 		Count: pb.Count,
